@@ -220,7 +220,7 @@ def main(argv=None):
             unknown.append(v)
     for fid, vs in sorted(known_hits.items()):
         ent = known.entry(kf, fid)
-        print(f"KNOWN-FINDING: property={prop} {fid}: {ent['mechanism']} ({len(vs)} occurrences this run, e.g. {vs[0]['detail'][:160]})")
+        print(f"KNOWN-FINDING: property={prop} {fid}: {ent['mechanism']} ({len(vs)} occurrences this run, e.g. {(vs[0]['detail'].splitlines() or [''])[0][:160]})")
 
     # ------------------------------------------------------------------ gates
     gate_fail = []
